@@ -28,6 +28,7 @@ def tier_n(run, quick, thorough):
 def judge_events(run, family, module, events_path, label, shards=64, timeout=3600, env=None, race=False):
     """Validate a recorded trace; reproduce and re-judge each mismatching line; file results in run."""
     verdicts, n = run.validate(module, events_path, shards=shards, timeout=timeout, label=label, env=env)
+    run.not_ok_lines = {v["l"] for v in verdicts}
     evs = None
     run.evaluations += n
     # coverage accounting straight from the recorded events
@@ -143,7 +144,7 @@ def record(run, family, n, label=None, race=False, extra=(), timeout=3600, seed_
 CANARY = {}   # family -> function(event dict) -> corrupted event dict or None if this event cannot be corrupted
 
 
-def canary(run, family, module, events_path, env=None):
+def canary(run, family, module, events_path, env=None, skip_lines=()):
     """Binding check: a copy of accepted events with one recorded field corrupted must be rejected by the trace
     specification; otherwise the specification does not constrain the recorded field and the run is void."""
     fn = CANARY.get(family)
@@ -152,7 +153,9 @@ def canary(run, family, module, events_path, env=None):
     out = os.path.join(run.dir, "canary-%s.ndjson" % family)
     n = 0
     with open(events_path) as f, open(out, "w") as g:
-        for line in f:
+        for ln, line in enumerate(f, 1):
+            if ln in skip_lines:
+                continue    # only events the specification accepted are corrupted
             e = fn(json.loads(line))
             if e is not None:
                 g.write(json.dumps(e, separators=(",", ":")) + "\n")
@@ -174,7 +177,7 @@ def family_random(run, family, module, n, label="random", shards=64, timeout=360
     ev = record(run, family, n, label=label, extra=extra)
     judge_events(run, family, module, ev, label, shards=shards, timeout=timeout, env=env)
     if not run.mismatches:
-        canary(run, family, module, ev, env=env)
+        canary(run, family, module, ev, env=env, skip_lines=getattr(run, "not_ok_lines", ()))
 
 
 def family_enumerated(run, family, gen_module, trace_module, label="enumerated", gen_cfg=None, shards=64, env=None,
